@@ -47,6 +47,8 @@ def _same_shape(got, want):
     if A.is_form(want) or A.is_form(got):
         return A.is_form(want) == A.is_form(got) or (not A.is_form(got) and got[0] in ("obj", "objf", "if", "match", "early")) or (not A.is_form(want) and want[0] in ("obj", "if"))
     if want[0] != got[0]:
+        if {want[0], got[0]} <= {"some", "none", "err"}:
+            return True  # present against absent is a difference of value, not of shape
         return got[0] in ("if", "match", "early", "obj") or want[0] in ("if", "match", "obj")
     if want[0] == "struct":
         kw = {k for k in want[1] if not str(k).startswith("__")}
